@@ -238,6 +238,21 @@ class Arr:
     def copy(self):
         return fresh_copy(self)
 
+    def diagonal(self):
+        from .models import NP
+        return NP.diagonal(self)
+
+    def transpose(self):
+        return self.T
+
+    def mean(self, axis=None):
+        from .models import NP
+        return NP.mean(self, axis=axis)
+
+    def clip(self, lo=None, hi=None):
+        from .models import NP
+        return NP.clip(self, lo, hi)
+
     # in-place methods write through to the buffer (A5): each is a store for the frame ledger
     def sort(self, axis=-1, kind=None):
         from .models import NP
